@@ -92,10 +92,16 @@ else:
         return int.from_bytes(bytes(octets), 'big', signed=signed)
 
     def to_bytes(value, signed=False, length=0):
-        length = max(value.bit_length(), length)
+        if signed and value < 0:
+            # two's complement of a negative number needs as many bits as
+            # its complement plus the sign bit (-128 fits a single octet)
+            length = max((~value).bit_length() + 1, length)
 
-        if signed and length % 8 == 0:
-            length += 1
+        else:
+            length = max(value.bit_length(), length)
+
+            if signed and length % 8 == 0:
+                length += 1
 
         return value.to_bytes(length // 8 + (length % 8 and 1 or 0), 'big', signed=signed)
 
